@@ -9,8 +9,8 @@ EXTENDS Cache, TLC, Json, IOUtils
 
 Traces == JsonDeserialize(IOEnv.TRACE_FILE)
 
-VARIABLES tid, l, st
-vars == <<tid, l, st>>
+VARIABLES tid, l, st, frozen
+vars == <<tid, l, st, frozen>>
 
 SeqSet(s) == {s[i] : i \in 1..Len(s)}
 ItemSet(it) == {<<it[i].k, it[i].v>> : i \in 1..Len(it)}
@@ -30,20 +30,30 @@ Match(o, ev) ==
 Init == /\ tid \in 1..Len(Traces)
         /\ l = 1
         /\ st = [c |-> Traces[tid].cfg, it |-> <<>>]
+        /\ frozen = <<>>
 
+(* A copy event marked "fork" leaves a second cache behind (the copy, or the source when the history goes on with the *)
+(* copy): frozen remembers the contents it had; the "twin_probe" event near the end reads that second cache back -    *)
+(* items and complete eviction order - after everything that happened to the other one.                             *)
 Step ==
     /\ l >= 1 /\ l <= Len(Traces[tid].ev)
     /\ LET ev == Traces[tid].ev[l] IN
        IF ev.op.op = "probe"
        THEN IF ev.order = KeySeq(st.it)
-            THEN l' = l + 1 /\ UNCHANGED <<tid, st>>
+            THEN l' = l + 1 /\ UNCHANGED <<tid, st, frozen>>
             ELSE /\ PrintT(<<"REJECT", ToJson([tid |-> tid, l |-> l, st |-> st, exp |-> {[order |-> KeySeq(st.it)]}])>>)
-                 /\ l' = 0 /\ UNCHANGED <<tid, st>>
+                 /\ l' = 0 /\ UNCHANGED <<tid, st, frozen>>
+       ELSE IF ev.op.op = "twin_probe"
+       THEN IF ev.order = KeySeq(frozen) /\ SeqSet(ev.items) = ItemSet(frozen)
+            THEN l' = l + 1 /\ UNCHANGED <<tid, st, frozen>>
+            ELSE /\ PrintT(<<"REJECT", ToJson([tid |-> tid, l |-> l, st |-> st, exp |-> {[second_cache |-> frozen]}])>>)
+                 /\ l' = 0 /\ UNCHANGED <<tid, st, frozen>>
        ELSE LET ms == {o \in Outcomes(st, ev.op) : Match(o, ev)} IN
             IF ms # {}
-            THEN \E o \in ms : st' = o.s /\ l' = l + 1 /\ tid' = tid
+            THEN \E o \in ms : /\ st' = o.s /\ l' = l + 1 /\ tid' = tid
+                                /\ frozen' = (IF "fork" \in DOMAIN ev THEN o.s.it ELSE frozen)
             ELSE /\ PrintT(<<"REJECT", ToJson([tid |-> tid, l |-> l, st |-> st, exp |-> Outcomes(st, ev.op)])>>)
-                 /\ l' = 0 /\ UNCHANGED <<tid, st>>
+                 /\ l' = 0 /\ UNCHANGED <<tid, st, frozen>>
 
 Spec == Init /\ [][Step]_vars
 Accept == (l = Len(Traces[tid].ev) + 1) => PrintT(<<"ACCEPT", tid>>)
